@@ -73,8 +73,16 @@ class EngineV:
             return LibFunc("engine.to_array", f)
         if attr == "to_frame":
             def f(I):
-                fr = Opaque("pixel frame of the engine")
+                # the stored records inside the window (C03): ids inside the window, a value per record
+                from pyvc.lib_pandas import DataFrameV
+                b1 = v.Arr("frame.bin1_id")
+                b2 = v.Arr("frame.bin2_id", n=b1.n)
+                val = v.Arr("frame.count", kind="real", n=b1.n)
+                v.assume(forall(0, b1.n, lambda t: And(i0 <= b1[t], b1[t] < i1, j0 <= b2[t], b2[t] < j1)))
+                fr = DataFrameV({"bin1_id": b1, "bin2_id": b2, "count": val}, None)
                 self.out = fr
+                self.raw = val.at
+                self.ids = (b1, b2)
                 return fr
             return LibFunc("engine.to_frame", f)
         raise Exception("engine." + attr + " outside the model")
@@ -99,7 +107,7 @@ class MatrixApi(Contract):
     def configs(self, v):
         from pyvc.values import LibFunc
 
-        def mk(sparse, balance, has_col, as_pixels=False):
+        def mk(sparse, balance, has_col, as_pixels=False, join=False):
             def f(v):
                 nb = v.Int("nbins")
                 w = v.Arr("weights", kind="real", n=nb)
@@ -116,16 +124,50 @@ class MatrixApi(Contract):
                         made.append(e)
                         return e
                     return LibFunc(kind, ctor)
+                ann = []
+
+                class _Sel:     # Cooler(h5).bins()[[columns]]: a selector over those columns of THIS group's bin table (assumed)
+                    def __init__(self, grp, cols=None):
+                        self.grp, self.cols = grp, cols
+
+                    def pyvc_getattr(self, I, attr, node):
+                        if attr == "bins":
+                            return LibFunc("Cooler.bins", lambda I, **k: _Sel(self.grp, None))
+                        raise Exception("Cooler." + attr + " outside the model")
+
+                    def pyvc_getitem(self, I, key, node):
+                        return _Sel(self.grp, list(key) if isinstance(key, list) else key)
+
+                def annotate(I, df, bins_, replace=False):
+                    # ASSUMED: the contract of api.annotate (proved separately, contracts/apitables.py): every record gets the
+                    # columns of its own two bins, suffixed 1 and 2, in front; ids dropped iff replace
+                    from pyvc.lib_pandas import DataFrameV
+                    ann.append((df, bins_, replace))
+                    if not (isinstance(bins_, _Sel) and isinstance(bins_.cols, list) and isinstance(df, DataFrameV)):
+                        return Opaque("annotated frame")
+                    cols = {}
+                    for suf, idc in (("1", "bin1_id"), ("2", "bin2_id")):
+                        ids = df.cols[idc]
+                        for c in bins_.cols:
+                            src = bins_.grp["bins"][c] if c in bins_.grp["bins"] else v.Arr("bins." + c, n=nb)
+                            cols[c + suf] = Arr(ids.n, (lambda t, src=src, ids=ids: src.at(ids.at(t))), src.kind)
+                    for c, a in df.cols.items():
+                        if not (replace and c in ("bin1_id", "bin2_id")):
+                            cols[c] = a
+                    out = DataFrameV(cols, None)
+                    out._annotated_from = (df, bins_, replace)
+                    return out
                 np_ns = v.path.engine.lib["numpy"]
                 from pyvc.values import LibNS
                 np2 = LibNS("numpy", dict(np_ns._members, outer=LibFunc("np.outer", np_outer)))
                 return dict(h5=h5, i0=v.Int("i0"), i1=v.Int("i1"), j0=v.Int("j0"), j1=v.Int("j1"), field=None,
-                            balance=balance, sparse=sparse, as_pixels=as_pixels, join=False, ignore_index=v.Bool("ignore_index"),
+                            balance=balance, sparse=sparse, as_pixels=as_pixels, join=join, ignore_index=v.Bool("ignore_index"),
                             divisive_weights=v.Bool("divisive"), chunksize=v.Int("chunksize"), fill_lower=v.Bool("fill_lower"),
                             __free__={"CSRReader": LibFunc("CSRReader", lambda I, *a: Opaque("reader")),
                                       "DirectRangeQuery2D": engine("Direct"), "FillLowerRangeQuery2D": engine("FillLower"),
-                                      "np": np2},
-                            __ghost__={"w": w, "nb": nb, "made": made, "has_col": has_col})
+                                      "np": np2, "Cooler": LibFunc("Cooler", lambda I, grp, **k: _Sel(grp)),
+                                      "annotate": LibFunc("annotate (own contract, assumed here)", annotate)},
+                            __ghost__={"w": w, "nb": nb, "made": made, "has_col": has_col, "ann": ann, "h5": h5, "Sel": _Sel})
             return f
         for sparse in (True, False):
             for balance in (False, True, "KR"):
@@ -133,6 +175,11 @@ class MatrixApi(Contract):
             yield f"{'sparse' if sparse else 'dense'},balance=True,column-missing", mk(sparse, True, False)
             yield f"{'sparse' if sparse else 'dense'},balance='KR',column-missing", mk(sparse, "KR", False)
         yield "pixels,balance=False", mk(False, False, True, as_pixels=True)
+        for balance in (True, "KR"):
+            for join in (False, True):
+                yield f"pixels,balance={balance!r},join={join}", mk(False, balance, True, as_pixels=True, join=join)
+        yield "pixels,balance=False,join=True", mk(False, False, True, as_pixels=True, join=True)
+        yield "pixels,balance=True,column-missing", mk(False, True, False, as_pixels=True)
 
     def _g(self):
         return self._v.path.ghost
@@ -161,10 +208,38 @@ class MatrixApi(Contract):
         reader, efield, bbox, ecs, eri = e.args
         if as_pixels:
             # pixel output lists exactly the STORED records in the window: direct engine, whole window
-            return {"direct-engine-for-pixels": e.kind == "Direct",
-                    "bounding-box-is-the-window": And(bbox[0] == i0, bbox[1] == i1, bbox[2] == j0, bbox[3] == j1),
-                    "frame-of-the-engine": result is e.out,
-                    "index-requested-iff-not-ignored": Iff(eri, Not(ignore_index))}
+            out = {"direct-engine-for-pixels": e.kind == "Direct",
+                   "bounding-box-is-the-window": And(bbox[0] == i0, bbox[1] == i1, bbox[2] == j0, bbox[3] == j1),
+                   "index-requested-iff-not-ignored": Iff(eri, Not(ignore_index))}
+            join = kw.get("join", False)
+            ann, Sel = g["ann"], g["Sel"]
+            fr = e.out
+            name = balance if isinstance(balance, str) else "weight"
+            n_expected = (1 if balance else 0) + (1 if join else 0)
+            out["annotations:one-per-request"] = len(ann) == n_expected
+            if len(ann) != n_expected:
+                return out
+            if balance:
+                df_, sel_, rep_ = ann[0]
+                out["weights:looked-up-for-the-engines-records-in-this-collections-bin-table"] = df_ is fr and isinstance(sel_, Sel) \
+                    and sel_.grp is g["h5"] and sel_.cols == [name] and rep_ is False
+                b1, b2 = e.ids
+                n = L(b1)
+                u = lambda k: If(divisive_weights, 1 / w[k], w[k])   # noqa: E731
+                bal = fr.cols.get("balanced")
+                out["balanced-column-added-to-the-engines-frame"] = bal is not None
+                if bal is not None:
+                    out["balanced:value-times-weight-of-its-row-bin-and-its-column-bin"] = And(L(bal) == n, forall(
+                        0, n, lambda t: bal[t] == u(b1[t]) * u(b2[t]) * e.raw(t)))
+                    out["raw-values-and-ids-untouched"] = fr.cols["count"].at is e.raw and fr.cols["bin1_id"] is b1 and fr.cols["bin2_id"] is b2
+            if join:
+                df_, sel_, rep_ = ann[-1]
+                out["join:the-same-frame-annotated-with-bin-coordinates-replacing-ids"] = df_ is fr and isinstance(sel_, Sel) \
+                    and sel_.grp is g["h5"] and sel_.cols == ["chrom", "start", "end"] and rep_ is True
+                out["join:returns-the-annotated-frame"] = getattr(result, "_annotated_from", (None,))[0] is fr
+            else:
+                out["frame-of-the-engine"] = result is fr
+            return out
         out["engine-choice"] = (e.kind == "FillLower") == fill_lower if isinstance(fill_lower, bool) else \
             Iff(fill_lower, e.kind == "FillLower")
         out["bounding-box-is-the-window"] = And(bbox[0] == i0, bbox[1] == i1, bbox[2] == j0, bbox[3] == j1)
